@@ -36,6 +36,28 @@ type vfC29Sess struct {
 
 func (s *vfC29Sess) Close() error { s.Closes++; return nil }
 
+// vfC29Prod is a producer opened on a resumed session: its first turn runs inside the /init request,
+// after the init handler has returned, and is as much "a call bearing the session" as a unary is.
+type vfC29Prod struct{ N int }
+
+func (p *vfC29Prod) Produce(ctx context.Context, out *OutputCollector, cc *CallContext) error {
+	if st, _ := cc.Session().(*vfC29Sess); st != nil {
+		st.In++
+		if st.In > st.MaxIn {
+			st.MaxIn = st.In
+		}
+		vsched.Point("produce-mid")
+		st.In--
+	}
+	p.N++
+	if p.N > 1 {
+		return out.Finish()
+	}
+	return out.Emit(vfI64Batch("v", int64(p.N)))
+}
+
+func init() { RegisterStateType(&vfC29Prod{}) }
+
 type vfC29World struct {
 	x        *venum.X
 	w        [2]*HttpServer
@@ -90,6 +112,9 @@ func vfC29NewWorld(x *venum.X) *vfC29World {
 			vsched.Point("work-mid")
 			st.In--
 			return int64(st.ID), nil
+		})
+		Producer(s, "sprod", vfOutSchema, func(ctx context.Context, cc *CallContext, p VfXParams) (*StreamResult, error) {
+			return &StreamResult{OutputSchema: vfOutSchema, State: &vfC29Prod{}}, nil
 		})
 		Unary(s, "close", func(ctx context.Context, cc *CallContext, p VfXParams) (int64, error) {
 			st, _ := cc.Session().(*vfC29Sess)
@@ -191,7 +216,11 @@ func (w *vfC29World) call(worker int, method string, x int64, caller, token stri
 	if accept {
 		hdr = append(hdr, "VGI-Session-Accept", "true")
 	}
-	rec, pan := vfArrowPost(w.w[worker], "/"+method, vfXReq(method, x), hdr...)
+	path := "/" + method
+	if method == "sprod" {
+		path = "/sprod/init"
+	}
+	rec, pan := vfArrowPost(w.w[worker], path, vfXReq(method, x), hdr...)
 	if pan != nil && vsched.IsAbort(pan) {
 		panic(pan)
 	}
@@ -226,7 +255,7 @@ type vfC29Op struct {
 func TestVerif_C29(t *testing.T) {
 	venum.Begin("C29")
 	defer venum.Finish(t)
-	ops := []string{"work", "work2", "close", "delete", "work-as-bob", "work-on-w2", "drain-open", "shutdown", "expire", "open-panic", "open", "delete-as-bob", "work-gone", "clear-drain"}
+	ops := []string{"work", "work2", "close", "delete", "work-as-bob", "work-on-w2", "drain-open", "shutdown", "expire", "open-panic", "open", "delete-as-bob", "work-gone", "clear-drain", "producer-on-session"}
 	nThreads := venum.QT(2, 3)
 	venum.Explore(t, venum.Cfg{Name: "sticky-schedules", PreemptBound: venum.QT(2, 2), Shardable: true, CheckDeterminism: true}, func(x *venum.X) {
 		chosen := make([]string, nThreads)
@@ -296,6 +325,8 @@ func vfC29Scenario(x *venum.X, chosen []string) {
 							panic(pan)
 						}
 						rec.resp = vfC29Resp{status: r.Code, pan: pan, closed: r.Header().Get("VGI-Session-Close") == "true"}
+					case "producer-on-session":
+						rec.resp = w.call(0, "sprod", 1, "alice", token, false)
 					case "work-gone":
 						rec.resp = w.callGone(0, "work", 1, "alice", token)
 					case "work-as-bob":
@@ -380,7 +411,7 @@ func vfC29Scenario(x *venum.X, chosen []string) {
 				if !lost {
 					x.Failf(cls+":foreign-resolve:"+d.name, "%s was not answered session_lost: status=%d ok=%v value=%s err=%s/%s", d.name, r.status, r.ok, r.value, r.errType, r.errKind)
 				}
-			case "work", "work2", "close":
+			case "work", "work2", "close", "producer-on-session":
 				if !lost && !r.ok {
 					x.Failf(cls+":owner-call-failed:"+d.name, "owner's %s neither succeeded nor got session_lost: status=%d err=%s/%s", d.name, r.status, r.errType, r.errKind)
 				}
